@@ -122,9 +122,15 @@ func execC09(seg []Ev) []Ev {
 					// capacity reaching into the second): the library copies or only reads them
 					all := make([]rune, 0, len(seps)+len(quotes)+4)
 					all = append(append(all, seps...), quotes...)
-					t.SetFieldSeparators([]rune{0x1})
-					t.SetQuoteSymbols(all[len(seps):])
-					t.SetFieldSeparators(all[:len(seps)])
+					if len(text)%2 == 0 {
+						t.SetFieldSeparators([]rune{0x1})
+						t.SetQuoteSymbols(all[len(seps):])
+						t.SetFieldSeparators(all[:len(seps)])
+					} else {
+						t.SetQuoteSymbols([]rune{0x2}) // (another quote symbol is in force while the separators are handed over)
+						t.SetFieldSeparators(all[:len(seps)])
+						t.SetQuoteSymbols(all[len(seps):])
+					}
 					if string(all) != string(seps)+string(quotes) {
 						e["held_what"], e["held_then"], e["held_now"] = "the caller's array of separators and quote symbols after it was handed to the setters", string(seps)+string(quotes), string(all)
 					}
